@@ -88,11 +88,13 @@ package environment
 //@   ghostvar rnDropped bool = false
 //@   on call (*Environment).handleHooksWithNegativeWeights : assert phase == 0 ; phase = 1
 //@   on call .SetRuntimeVar : assert phase == 1
-// C10: the end-completion time is written when STOP_ACTIVITY completes, or (GO_ERROR) after it was read and found empty
+// C10: the end-completion time is written - when STOP_ACTIVITY completes as well as on GO_ERROR - only after it was read and
+// found empty (a forced teardown while RUNNING that fails to release its tasks has set it already and leaves the
+// environment RUNNING: the STOP_ACTIVITY that follows must not stamp the same run a second time)
 //@   ghostvar readKey string = ""
 //@   ghostvar readEmpty bool = false
 //@   [C10] on aftercall .Get : readKey = arg0 ; readEmpty = result1 && result0 == ""
-//@   [C10] on call .SetRuntimeVar when arg0 == "run_end_completion_time_ms" : assert arg1 == "" || isStop || (readKey == "run_end_completion_time_ms" && readEmpty)
+//@   [C10] on call .SetRuntimeVar when arg0 == "run_end_completion_time_ms" : assert arg1 == "" || (readKey == "run_end_completion_time_ms" && readEmpty)
 //@   [C10] on call .SetRuntimeVar when arg0 == "run_end_time_ms" : assert arg1 == "" || (readKey == "run_end_time_ms" && readEmpty)
 //@   on call (*Environment).handleHooksWithPositiveWeights : assert phase == 1 ; phase = 2
 //@   on store environment.Environment.currentRunNumber : assert phase == 2 && value == 0 && isStop ; rnDropped = true
@@ -217,7 +219,10 @@ package environment
 //@   property C01
 // Teardown runs under the environment's transitionMutex (so it is serialised with transitions) and forces DONE only there.
 //@ func (envs *Manager) TeardownEnvironment(environmentId uid.ID, force bool) (err error)
-//@   property C01 C06 C10
+//@   property C01 C06 C10 C08
+// C08 / C06 (every DESTROY and after_DESTROY hook runs, at its weight): joining the after_DESTROY hooks to the DESTROY
+// hooks never drops what is already filed under a weight
+//@   [C06 C08] on mapupdate hooksMapForDestroy : assert len(value) >= len(v) && ((key in hooksMapForDestroy) ==> len(value) == len(hooksMapForDestroy[key]) + len(v))
 //@   ghostvar held bool = false
 //@   ghostvar willUnlock bool = false
 //@   ghostvar doneSet bool = false
